@@ -247,6 +247,22 @@ def QStore.fresh (s : QStore) : QStore :=
 /-- a restarted process: `Initialize` → `NewQualification` → `restoreState` → `restore` (ceremony.go:153-156, 331) -/
 def QStore.restart (s : QStore) : QStore := s.fresh.restore
 
+/-- what every reader of the store makes of an entry (qualification.go:234 `len(answerBytes) == 0` ⇒ "no answer";
+`ParseShortAnswerBytesAttachment` / `ParseLongAnswerBytesAttachment` return nil for an empty payload as well):
+absent, nil and empty are the same — the code as it is after the repair of finding F24 -/
+def viewOf : Option Payload → Option (List Nat)
+  | some (.bytes (b :: bs)) => some (b :: bs)
+  | _ => none
+
+/-- the code as found before that repair (`answerBytes == nil`): a non-nil empty payload counted as an answer -/
+def viewOfAsFound : Option Payload → Option (List Nat)
+  | some (.bytes b) => some b
+  | _ => none
+
+/-- the answer of `a` the epoch evaluation works with -/
+def QStore.view (s : QStore) (short : Bool) (a : Nat) : Option (List Nat) := viewOf (s.get short a)
+def QStore.viewAsFound (s : QStore) (short : Bool) (a : Nat) : Option (List Nat) := viewOfAsFound (s.get short a)
+
 /-- an answers transaction of a block (`SubmitShortAnswersTx` / `SubmitLongAnswersTx`) -/
 structure Tx where
   short : Bool
